@@ -123,7 +123,30 @@ fn serve(mut s: TcpStream, handler: Arc<Handler>) {
     }
     out.push_str("\r\n");
     let _ = s.write_all(out.as_bytes());
-    let _ = s.write_all(&resp.body);
+    // every third response leaves in small pieces (own TCP segments): the client's streaming decoders see frames and
+    // headers that are cut at arbitrary places, as on a real network
+    static SERVED: std::sync::atomic::AtomicUsize = std::sync::atomic::AtomicUsize::new(0);
+    let k = SERVED.fetch_add(1, std::sync::atomic::Ordering::Relaxed);
+    if k % 3 == 1 && !resp.body.is_empty() {
+        let _ = s.set_nodelay(true);
+        let _ = s.flush();
+        let sizes: &[usize] = if resp.body.len() <= 1 << 16 { &[1, 7, 8, 9, 3, 64, 5, 1000, 2, 4] } else { &[4096, 1, 8191, 7] };
+        let (mut pos, mut i) = (0usize, k);
+        while pos < resp.body.len() {
+            let n = sizes[i % sizes.len()].min(resp.body.len() - pos);
+            if s.write_all(&resp.body[pos..pos + n]).is_err() {
+                break;
+            }
+            let _ = s.flush();
+            pos += n;
+            i += 1;
+            if i % 4 == 0 {
+                std::thread::yield_now();
+            }
+        }
+    } else {
+        let _ = s.write_all(&resp.body);
+    }
     let _ = s.flush();
     let _ = s.shutdown(std::net::Shutdown::Write);
     // let the peer see the end of the stream before the socket goes away
